@@ -119,6 +119,80 @@ pub fn known_shapes(root: &SyntaxNode) -> Vec<&'static str> {
     if f7(root, false) {
         add("F7");
     }
+    // F21: a list/enum/term item whose body starts with another item on the same line (`- - x`):
+    // the inner item's continuation lines are indented by whole units, not to the inner marker
+    if any_node(root, &|n| {
+        matches!(n.kind(), K::ListItem | K::EnumItem | K::TermItem)
+            && n.children().filter(|c| c.kind() == K::Markup).last().is_some_and(|m| {
+                m.children().find(|c| c.kind() != K::Space).is_some_and(|c| matches!(c.kind(), K::ListItem | K::EnumItem | K::TermItem))
+            })
+    }) {
+        add("F21");
+    }
+    // F10: a blank line inside a list-like construct that is laid out on one line
+    if any_node(root, &|n| {
+        matches!(n.kind(), K::Args | K::Array | K::Dict | K::Params | K::Destructuring)
+            && n.children().any(|c| c.kind() == K::Space && c.text().matches('\n').count() >= 2)
+            && !n.children().nth(1).is_some_and(|c| c.kind() == K::Space && c.text().contains('\n'))
+    }) {
+        add("F10");
+    }
+    // F23: a multi-line node after `@typstyle off` in a context that is re-indented: only its
+    // first line moves
+    fn f23(n: &SyntaxNode) -> bool {
+        let mut disable_next = false;
+        for c in n.children() {
+            let k = c.kind();
+            if is_comment(k) {
+                if c.text().contains("@typstyle off") {
+                    disable_next = true;
+                }
+                continue;
+            }
+            if disable_next && !matches!(k, K::Space | K::Hash) {
+                disable_next = false;
+                if c.clone().into_text().contains('\n') {
+                    return true;
+                }
+                continue;
+            }
+            if f23(c) {
+                return true;
+            }
+        }
+        false
+    }
+    if f23(root) {
+        add("F23");
+    }
+    // F24: a line break next to a comment inside math delimiters is printed as a soft break
+    if any_node(root, &|n| {
+        n.kind() == K::MathDelimited && {
+            let cs: Vec<&SyntaxNode> = n.children().collect();
+            (0..cs.len()).any(|i| {
+                is_comment(cs[i].kind())
+                    && ((i > 0 && cs[i - 1].kind() == K::Space && cs[i - 1].text().contains('\n'))
+                        || (i + 1 < cs.len() && cs[i + 1].kind() == K::Space && cs[i + 1].text().contains('\n')))
+            }) || n.children().any(|m| {
+                m.kind() == K::Math && {
+                    let ms: Vec<&SyntaxNode> = m.children().collect();
+                    (0..ms.len()).any(|i| {
+                        is_comment(ms[i].kind())
+                            && ((i > 0 && ms[i - 1].kind() == K::Space && ms[i - 1].text().contains('\n'))
+                                || (i + 1 < ms.len() && ms[i + 1].kind() == K::Space && ms[i + 1].text().contains('\n')))
+                    })
+                }
+            })
+        }
+    }) {
+        add("F24");
+    }
+    // F26: 2-D math arguments (`mat(a, b; c, d)`): range formatting of a node inside an equation
+    // does not suppress breaks as whole-document formatting does, and the `Never` layout of the
+    // rows appends a separator (a cell is added, cf. F15)
+    if any_node(root, &|n| n.kind() == K::Args && n.children().any(|c| c.kind() == K::Semicolon || c.kind() == K::Array)) {
+        add("F26");
+    }
     // F18: a comment between the parts of a field access
     if any_node(root, &|n| n.kind() == K::FieldAccess && n.children().any(|c| is_comment(c.kind()))) {
         add("F18");
@@ -132,9 +206,14 @@ pub fn affects(id: &str, prop: &str) -> bool {
         "F4" => &["C10", "C01", "C02", "C13"],
         "F9" => &["C04", "C01", "C02", "C03", "C09", "C06", "C13", "C10"],
         "F15" => &["C03", "C01", "C02", "C09", "C04", "C13", "C06"],
-        "F17" => &["C04", "C01", "C02", "C06", "C03", "C09", "C13", "C10"],
+        "F17" => &["C04", "C01", "C02", "C06", "C03", "C09", "C13", "C10", "C08"],
         "F7" => &["C12"],
-        "F18" => &["C04", "C01", "C02", "C03", "C13", "C06"],
+        "F24" => &["C09"],
+        "F26" => &["C13"],
+        "F21" => &["C01", "C02", "C03", "C08", "C13"],
+        "F10" => &["C03"],
+        "F18" => &["C04", "C01", "C02", "C03", "C13", "C06", "C07"],
+        "F23" => &["C01", "C02", "C03", "C08", "C13"],
         _ => &[],
     };
     props.contains(&prop)
